@@ -41,6 +41,16 @@ func newTraversal(variable string) traversal {
 	}
 }
 
+// detached returns a copy of the traversal that shares no backing array with the original.
+// Alternative branches start from the same traversal; appending in place would let one
+// alternative overwrite the code accumulated for another.
+func (t traversal) detached() traversal {
+	t.rego = append([]string{}, t.rego...)
+	t.pathVariables = append([]string{}, t.pathVariables...)
+	t.paths = append([]string{}, t.paths...)
+	return t
+}
+
 func internalResultToTraversal(p traversal, r regoPathResultInternal) traversal {
 	return traversal{
 		variable:      p.variable,
@@ -210,6 +220,7 @@ func traverseProperty(property path.Property, t traversal, fetchNodes bool, iriE
 // Traverses the leaf components of the path expression, always a property.
 // TODO: We don't take into transitive paths yet.
 func traverseRegularProperty(property path.Property, t traversal, fetchNodes bool, iriExpander *misc.IriExpander) []regoPathResultInternal {
+	t = t.detached()
 
 	propertyIri, err := property.Expanded(iriExpander)
 
@@ -258,6 +269,7 @@ func traverseRegularProperty(property path.Property, t traversal, fetchNodes boo
 }
 
 func traverseCustomProperty(property path.Property, t traversal, fetchNodes bool, iriExpander *misc.IriExpander) []regoPathResultInternal {
+	t = t.detached()
 	customPropertyName, err := property.CustomName(iriExpander)
 	if err != nil {
 		panic(err)
